@@ -17,6 +17,7 @@ type protoInput struct {
 	NKeys      int       `json:"nkeys"`
 	Insts      []int     `json:"insts"`
 	Padding    bool      `json:"padding"`
+	DupSortOpt bool      `json:"dupsort_opt"`
 	Drain      bool      `json:"drain"`
 	SweeperCut bool      `json:"sweeper_cut"` // sweeper enabled: abstract timestamps < 2 are older than the load cut-off
 	Behaviours [][]WStep `json:"behaviours"`
@@ -87,8 +88,10 @@ func replayProto(R *Result, in protoInput, beh []WStep, conc Conc, kc KeyConc, b
 		return err
 	}
 	w.Padding = in.Padding
+	w.DupSortOpt = in.DupSortOpt
 	if in.SweeperCut {
 		w.Sweeper = config.Sweeper{Enabled: true, RetentionDays: 10}
+		w.AgeSnapshots = bi%2 == 1
 	}
 	defer w.Close()
 	for _, i := range in.Insts {
